@@ -17,7 +17,8 @@ CFG = {
     "level_note": "Payloads are modelled by their length plus a stunLike flag (stun.IsMessage: length >= 20 and magic cookie at bytes "
                   "4..8); the model never touches payload contents, so 'arrives unmodified' holds BY CONSTRUCTION of the model and is "
                   "covered for the code only by the correspondence run (the harness compares lengths, not bytes). packetio.Buffer is "
-                  "modelled as an UNBOUNDED FIFO of lengths: its size limit and its contents are trusted; its short-read behaviour "
+                  "modelled as a FIFO of lengths with the real bound (1 000 000 bytes, 2 per datagram included: a payload that does not "
+                  "fit is dropped after the source check and before any counter moves); its contents are trusted; its short-read behaviour "
                   "(min(len, cap) bytes + io.ErrShortBuffer, datagram consumed, cap 0 included) is modelled and compared. "
                   "Conn.WriteToPair does not add to Conn.BytesSent in the code nor in the model (the property text speaks of Write only). "
                   "Trusted: Lean kernel (axioms propext/Classical.choice/Quot.sound), the model-to-code tie = differential correspondence "
@@ -28,9 +29,9 @@ CFG = {
     "rule": "quick: the agent generator's default budget of two-agent sessions (ticks, deliveries, drops, duplicates, data writes "
             "0..8000 bytes with/without STUN-like prefix, injected data from known/unknown/other-transport sources, reads, restart, "
             "close; reads mostly into a receiveMTU buffer, a minority into buffers of exactly / one less than / half a recent "
-            "datagram's size, 1, 0 and 65536 bytes; corpus/C07/agent.ops is replayed first); thorough: larger budget. Distinct = distinct (operation, output) lines; non-trivial = not bad-op / ended.",
+            "datagram's size, 1, 0 and 65536 bytes; up to 6 receive-buffer floods per run — payloads just below / at / above the 1 MB bound with a stalled reader, in one go or with reads in between, then drained; corpus/C07/agent.ops is replayed first); thorough: larger budget. Distinct = distinct (operation, output) lines; non-trivial = not bad-op / ended.",
     "translated": [],
-    "trusted_base": ["packetio.Buffer (bounded FIFO of byte slices) is modelled as an unbounded FIFO of lengths",
+    "trusted_base": ["packetio.Buffer (bounded FIFO of byte slices) is modelled as a FIFO of lengths with the same byte bound",
                      "payload bytes are not modelled: byte identity of delivered payloads is by construction of the model",
                      "stun.IsMessage is modelled by the stunLike flag carried by the event"],
     "assumptions": ["history theorems start from an initial agent (no candidates, pairs, caches, queue; counters 0) as built by the driver's `new`"],
